@@ -301,11 +301,27 @@ def run(res, tier):
             how += '; writer widths %s; reader widths %s' % (sorted(pw.get(name, [])), sorted(pr.get(name, [])))
         res.ob('SHAPE', 'lang/python3/message.py', 'Python codec for %s has the documented shape %s' % (name, DOC[name]), ok, how=how, function='Python:' + name, key='SHAPE|python|%s' % name,
                message='message.py handles %s as [%s], the documented wire format is %s' % (name, how, DOC[name]))
+    # the table MessageField::Unflatten uses to choose between the single-item and the array reader gives the documented item width for every fixed-size type (and 0 for the others)
+    gfs = [f_ for f_ in fx.funcs.values() if f_.full and f_.q.endswith('GetFlattenedSizeForFixedSizeType')]
+    if not gfs:
+        raise AnalysisBroken('SHAPE: GetFlattenedSizeForFixedSizeType not found')
+    for name in sorted(DOC):
+        try:
+            ev_ = E.Evaluator(fx, consts={gfs[0].params[0].get('n') or 'typeCode': tcs[name]})
+            val = E.pconst(ev_.fn_value(gfs[0], {gfs[0].params[0]['d']: E.P(tcs[name])}))
+        except E.Outside as e:
+            raise AnalysisBroken('SHAPE: GetFlattenedSizeForFixedSizeType(%s) outside the fragment: %s' % (name, e))
+        want = DOC[name][1] if DOC[name][0] == 'fixed' else 0
+        res.ob('SHAPE', gfs[0].where(), 'GetFlattenedSizeForFixedSizeType(%s) == %d' % (name, want), val == want, how=str(val), function='C++:sizetable:' + name, key='SHAPE|cpp-sizetable|%s' % name,
+               message='GetFlattenedSizeForFixedSizeType(%s) returns %s, the documented item width is %s: MessageField::Unflatten divides the payload length by this value to choose the single-item or the '
+                       'array reader, so fields with certain item counts are mis-parsed (valid Messages from every producer are rejected)' % (name, val, want))
     # ------------------------------------------------------------------------------------------- reader accepts what the writers produce
     C01.exact_fit_rule(res, fx)
     C01.min_entry_rule(res, fx)
     from . import C03
     C03.recv_capacity_rule(res, fx)
+    from . import micro as MI
+    MI.minsize_rule(res, sorted((f_ for f_ in fx.funcs.values() if f_.full and f_.file == MI.MICRO), key=lambda f_: f_.line), 'SHAPE')
     # C micro writer: the item-count word of a variable-size field grows by the number of items the call appends
     res.rule('MICRO-COUNT', 'MicroMessage.c: an adder that maintains a count header (UMWriteInt32(hdr, UMReadInt32(hdr) + k)) adds k = the bound of its item loop, or 1 when it appends a single item', floor=2)
     n_mc = 0
